@@ -76,6 +76,15 @@ Definition mint_denoms (l : list (Z * Z)) (gas : Z) : Z * Z * Z * bool :=
 (* value -> (minted total, outputs, gas left, success), gas = etx gas after the TxGas deduction *)
 Definition mint (v gas : Z) : Z * Z * Z * bool := mint_denoms (find_min_denominations v) gas.
 
+(* state_processor.go Process, ConversionRevert branch refunding Qi: same loop, but only the
+   denominations above MaxTrimDenomination are minted, the gas is the whole ETX gas and there is no
+   success flag.  [dust v] is what the trim rule drops. *)
+Definition above_trim (p : Z * Z) : bool := max_trim_denomination <? fst p.
+Definition refund_qi (v gas : Z) : Z * Z * Z * bool :=
+  mint_denoms (filter above_trim (find_min_denominations v)) gas.
+Definition dust (v : Z) : Z :=
+  denoms_sum (filter (fun p => negb (above_trim p)) (find_min_denominations v)).
+
 (* ---------- rewards.go: ApplyCubicDiscount, ideal (rational, floored) ---------- *)
 Definition disc_ideal (v m : Z) : Z :=
   if v <=? m then v * (min_cubic_div - min_cubic_bp) / min_cubic_div
@@ -269,6 +278,7 @@ Inductive case_body :=
 | CDisc (v m obs : Z)
 | CDenoms (v : Z) (obs : list (Z * Z))
 | CMint (v gas : Z) (o_total o_outputs o_gas : Z) (o_ok : bool)
+| CRefund (v gas : Z) (o_total o_outputs o_gas : Z)
 | CReprice (h : hdr) (knew : Z) (table : list (Z * Z * Z)) (etxs : list etx)
            (obs : option (list (N * N * Z) * Z * Z)).
 Definition case := (N * case_body)%type.
@@ -300,6 +310,8 @@ Definition case_ok (c : case) : bool :=
   | CDenoms v obs => zz_eqb (find_min_denominations v) obs
   | CMint v gas ot oo og ok =>
       let '(t, i, g, s) := mint v gas in (t =? ot) && (i =? oo) && (g =? og) && Bool.eqb s ok
+  | CRefund v gas ot oo og =>
+      let '(t, i, g, _) := refund_qi v gas in (t =? ot) && (i =? oo) && (g =? og)
   | CReprice h knew table etxs obs =>
       match reprice (lookup3 table) h knew etxs, obs with
       | None, None => true
